@@ -33,7 +33,17 @@ fn nest(open: &[u8], close: &[u8], depth: usize, inner: &[u8]) -> Vec<u8> {
 }
 
 /// Hand-written hostile documents that the object-table mutations cannot express (file structure level).
+/// The hand-written cases, each also behind a few bytes of junk before the header (all offsets are header-relative, so the
+/// file stays the same file; loop guards and bounds checks that mix absolute and relative positions only show there).
 pub fn specials() -> Vec<(String, Vec<u8>)> {
+    let plain = specials_plain();
+    let mut out = Vec::with_capacity(plain.len() * 2);
+    for (l, b) in plain.iter() { out.push((l.clone(), b.clone())); }
+    for (l, b) in plain.into_iter() { let mut p = b"junk before the header 0123456789\n".to_vec(); p.extend_from_slice(&b); out.push((format!("{}+prefix", l), p)); }
+    out
+}
+
+fn specials_plain() -> Vec<(String, Vec<u8>)> {
     let mut out: Vec<(String, Vec<u8>)> = Vec::new();
     let sk = mkpdf::skeleton(1);
     let base = |extra: Vec<(u32, Obj)>, trailer: Vec<(&str, Obj)>| -> Vec<u8> { let mut o = sk.clone(); o.extend(extra); mkpdf::simple_doc(&o, 1, trailer) };
@@ -87,6 +97,9 @@ pub fn specials() -> Vec<(String, Vec<u8>)> {
     }
     // --- xref stream parameters
     for (label, wv, index, size) in [("xrefstm-w-zero", vec![0i64, 0, 0], None, 5i64), ("xrefstm-w-huge", vec![8, 8, 8], None, 5), ("xrefstm-w-9", vec![1, 9, 1], None, 5), ("xrefstm-w-negative", vec![1, -1, 1], None, 5),
+        // pairs of extremes: with no bytes per entry the number of entries is not bounded by the data
+        ("xrefstm-w-zero-index-5e7", vec![0, 0, 0], Some(vec![0i64, 50_000_000]), 5), ("xrefstm-w-zero-index-max", vec![0, 0, 0], Some(vec![0i64, 2147483647]), 5), ("xrefstm-w-zero-size-max", vec![0, 0, 0], None, 2147483647),
+        ("xrefstm-w-type-only-index-5e7", vec![1, 0, 0], Some(vec![0i64, 50_000_000]), 5), ("xrefstm-w-one-byte-index-max", vec![0, 1, 0], Some(vec![0i64, 2147483647]), 5),
         ("xrefstm-w-two", vec![1, 2], None, 5), ("xrefstm-index-huge", vec![1, 2, 1], Some(vec![0i64, 1 << 31]), 5), ("xrefstm-index-negative", vec![1, 2, 1], Some(vec![-5, 5]), 5), ("xrefstm-index-odd", vec![1, 2, 1], Some(vec![0, 5, 7]), 5),
         ("xrefstm-size-max", vec![1, 2, 1], None, 2147483647), ("xrefstm-size-1e6", vec![1, 2, 1], None, 1_000_000), ("xrefstm-size-zero", vec![1, 2, 1], None, 0), ("xrefstm-size-negative", vec![1, 2, 1], None, -1)] {
         let mut b = b"%PDF-1.5\n".to_vec();
